@@ -15,6 +15,13 @@ def gen_cases(ctx, rng):
     n = 150 if ctx.tier == "quick" else 5000
     for i in range(n):
         g = G.Gen(rng, G.port_base(i % 5))
+        selfup = i % 3 == 2
+        if selfup:
+            # upstreams that are one of the proxies' own listen addresses (a proxy pointed at itself or at its neighbour): whatever the
+            # server makes of such a request, an error answer must leave everything as it was. No connection is ever opened to these
+            # proxies (a proxy that dials itself would not stop), so the listening probes are off for these sequences.
+            g.ups = g.ups + [g.L[0], g.L[1]]
+            stats["with_own_listen_as_upstream"] = stats.get("with_own_listen_as_upstream", 0) + 1
         # a state with proxies and toxics, then mostly requests that must be rejected
         reqs = [A.req("POST", "/proxies", A.J({"name": "a", "listen": g.L[0], "upstream": "u1:1"})),
                 A.req("POST", "/proxies", A.J({"name": "b", "listen": g.L[1], "upstream": "u2:2", "enabled": rng.chance(1, 2)}))]
@@ -44,7 +51,7 @@ def gen_cases(ctx, rng):
             else:
                 q = g.other()
             reqs.append(q)
-        cases.append({"reqs": reqs, "env": g.env, "group": i % 5})
+        cases.append({"reqs": reqs, "env": g.env, "group": i % 5, "noprobe": selfup})
         stats["sequences"] += 1
         stats["requests"] += len(reqs)
     return cases, stats
@@ -54,6 +61,7 @@ def oracle(case, resps):
     if isinstance(resps, dict) and "crash" in resps:
         return (0, "the API process crashed: " + resps["crash"][-300:])
     before = "{}"
+    before_listening = []
     for i, (q, resp) in enumerate(zip(case["reqs"], resps)):
         if resp.get("panic"):
             return (i, "handler panicked")
@@ -70,7 +78,12 @@ def oracle(case, resps):
                             diff = "proxy %r changed: %s -> %s" % (pb["name"], json.dumps(pb, default=str)[:160], json.dumps(pa, default=str)[:160])
                             break
                 return (i, "request answered %d but the %s" % (st, diff))
+            # ... and what really listens is what listened before (a rejected request binds nothing and stops nothing)
+            if not exception and "listening" in resp and sorted(resp["listening"]) != before_listening:
+                return (i, "request answered %d but the addresses accepting connections changed: %s -> %s (%s %s)"
+                        % (st, before_listening, sorted(resp["listening"]), q["method"], q["path"]))
         before = resp["proxies"]
+        before_listening = sorted(resp.get("listening") or [])
     return None
 
 
